@@ -115,6 +115,97 @@ def random_families(ctx, threshold):
     return fams
 
 
+def f32(x):
+    import struct
+    return struct.unpack("f", struct.pack("f", x))[0]
+
+
+def means_families(ctx, threshold):
+    """one endpoint, many records, several merges: a first batch of n >= 7 records whose total T is such that the stored float32
+    average times n does not give T back exactly (float32(T/n)*n != T, in either direction), followed by single-record and small
+    batches, with restarts.  The float32 emulation only *chooses inputs*; the verdict is the Means law with Eps(count)."""
+    T = ctx.thorough
+    rng = ctx.rng
+    fams = []
+    want = 8 if not T else 60
+    tries = 0
+    while len(fams) < want and tries < 100000:
+        tries += 1
+        n = rng.randint(7, 40)
+        tot = rng.randint(n, n * 60)
+        back = f32(f32(f32(tot) / f32(n)) * f32(n))
+        below = back < tot
+        if back == tot or (len(fams) % 4 != 3 and not below):       # mostly the case where the reconstructed total falls short
+            continue
+        # n durations adding up to tot (second duration field: another inexact total)
+        base, extra = divmod(tot, n)
+        ds = [base + (1 if i < extra else 0) for i in range(n)]
+        rng.shuffle(ds)
+        tail = rng.randint(3, 9)
+        recs = []
+        for k in range(n + tail):
+            d = ds[k] if k < n else rng.choice([0, 1, base, base + 1, 2 * base + 1])
+            recs.append({"m": "GET", "u": "h.com/m/one", "s": rng.choice([200, 200, 500]), "d": d, "t": min(2048, d + (k % 3)),
+                         "ts": 500 + 777 * k, "c": "A" if k % 5 else "B", "ity": "py", "iver": "1", "internal": False})
+        runs = [{"split": [n + tail], "restart": []},
+                {"split": [n] + [1] * tail, "restart": []},
+                {"split": [n] + [1] * tail, "restart": [1, 1 + tail // 2]},
+                {"split": [n // 2, n - n // 2] + [1] * tail, "restart": [2]},
+                {"split": [1] * (n + tail), "restart": []}]
+        b, left, split = 0, n + tail, []
+        while left:
+            b = min(left, rng.choice([1, 2, 3, 7]))
+            split.append(b)
+            left -= b
+        runs.append({"split": split, "restart": [rng.randint(1, len(split))]})
+        fams.append({"threshold": threshold, "known": [], "recs": recs, "runs": runs, "kind": "means"})
+    return fams
+
+
+def nested_families(ctx):
+    """multi-level convergence: URLs with two variable positions h.com/t/<a>/<b>[/leaf] whose levels cross the threshold at different
+    times, in both orders (inner first: an inferred parameter under several sibling constants, then the siblings converge and the
+    inner parameter is renamed; outer first), over several batches - judged by the batching-independence law."""
+    T = ctx.thorough
+    rng = ctx.rng
+    fams = []
+    for f in range(10 if not T else 80):
+        thr = rng.choice([2, 2, 3])
+        na, nb = thr + rng.choice([1, 2]), thr + rng.choice([1, 2])
+        leaf = rng.choice(["", "", "/items"])
+        mode = ["inner-first", "outer-first", "mixed"][f % 3]
+        urls = []
+        if mode == "inner-first":
+            for a in range(1, na + 1):
+                for b in range(1, nb + 1):
+                    urls.append((a, b))
+        elif mode == "outer-first":
+            for b in range(1, nb + 1):
+                for a in range(1, na + 1):
+                    urls.append((a, b))
+        else:
+            urls = [(a, b) for a in range(1, na + 1) for b in range(1, nb + 1)]
+            rng.shuffle(urls)
+        urls = urls[: rng.randint(max(4, len(urls) - 4), len(urls))]
+        extra = [rng.choice(urls) for _ in range(rng.randint(0, 4))]          # repeated traffic after the tree changed
+        seq = urls + extra
+        recs = [{"m": rng.choice(["GET", "GET", "POST"]), "u": "h.com/t/%d/x%d%s" % (a, b, leaf), "s": rng.choice([200, 404]),
+                 "d": rng.randint(1, 300), "t": rng.randint(1, 400), "ts": 100 + 613 * k, "c": rng.choice(["", "A"]),
+                 "ity": "py", "iver": "1", "internal": False} for k, (a, b) in enumerate(seq)]
+        n = len(recs)
+        runs = [{"split": [n], "restart": []}, {"split": [1] * n, "restart": []}]
+        for _ in range(4 if not T else 8):
+            split, left = [], n
+            while left:
+                b = min(left, rng.choice([1, 1, 2, 3, 4, nb, nb + 1]))
+                split.append(b)
+                left -= b
+            rs = sorted(rng.sample(range(1, len(split) + 1), min(len(split), rng.choice([0, 0, 1, 2]))))
+            runs.append({"split": split, "restart": rs})
+        fams.append({"threshold": thr, "known": [], "recs": recs, "runs": runs, "kind": "nested-" + mode})
+    return fams
+
+
 # ------------------------------------------------------------------------------------------ execution / judgement
 def execute(ctx, binary, fams, tag, chunks):
     d = ctx.sub("run-" + tag)
@@ -139,7 +230,7 @@ def split_runs(events):
     return events[0], fams
 
 
-def validate(ctx, events, tag, max_rounds=4):
+def validate(ctx, events, tag, max_rounds=8):
     """TLC-validate one trace file against DiscoveryTrace.  Returns (accepted runs, rejected) with rejected =
     [{stream, run (events), at (index in run), law}]; a rejected run is removed and the rest validated again."""
     cfg, fams = split_runs(events)
@@ -168,7 +259,8 @@ def validate(ctx, events, tag, max_rounds=4):
         fi, ri, k = loc
         rejected.append({"stream": fams[fi][0], "run": fams[fi][1][ri], "at": k, "law": law, "first_run_of_stream": ri == 0})
         del fams[fi][1][ri]
-    return sum(len(runs) for _, runs in fams), rejected
+    # more rejections than rounds: the runs after the last rejected one were not judged - they are not counted as accepted
+    return 0, rejected
 
 
 def model_conformance(ctx, events, tag):
@@ -196,12 +288,61 @@ def script_of(fam_meta, stream, run):
             "runs": [{"split": [len(stream["recs"])], "restart": []}, {"split": split, "restart": restart}]}
 
 
+def tree_facts(run, upto):
+    """bookkeeping for the witness (classification only): how the attribution read from the real tree moved during the run.
+    respecialised: a URL seen earlier moved from a key with an inferred parameter at some position to a key with a constant
+    at that position (the merged tree node kept constant children beside the parametric one);
+    orphan / missing keys at the last batch: endpoint keys no seen URL is attributed to / attributed keys without an entry;
+    tree_class: "none" | "respecialised" | "inner-stale" | "respecialised+inner-stale" | "other" (see the shapes below)."""
+    batches = [e for e in run[: upto + 1] if e["ev"] == "batch"]
+    resp = False
+    prev = {}
+    for b in batches:
+        cur = {a["u"]: a["n"] for a in b["attr"]}
+        for u, n in cur.items():
+            if u in prev and prev[u] != n:
+                ps, ns = prev[u].split("/"), n.split("/")
+                if len(ps) == len(ns) and any(x.startswith("{") and not y.startswith("{") for x, y in zip(ps, ns)):
+                    resp = True
+        prev = cur
+    orphan = missing = 0
+    shapes = set()
+    if batches:
+        image = set(prev.values())
+        keys = {e["u"] for e in batches[-1]["agg"]["eps"]}
+        orphan, missing = len(keys - image), len(image - keys)
+        isp = lambda x: x.startswith("{")
+        for k in keys - image:
+            ks = k.split("/")
+            shape = "other"
+            for c in image:
+                cs = c.split("/")
+                if len(cs) != len(ks) or any(not (a == b or isp(b)) for a, b in zip(ks, cs) if not isp(a)) or \
+                        any(isp(a) and not isp(b) for a, b in zip(ks, cs)):
+                    continue
+                stale = [i for i, (a, b) in enumerate(zip(ks, cs)) if not isp(a) and isp(b)]
+                params = [i for i, a in enumerate(ks) if isp(a)]
+                # the stale constant is the innermost variable position (every parameter of the key is to its left): the level
+                # converged while the stored keys were being normalised; a parameter to its right = an outer level not renamed
+                shape = "inner-stale" if stale and all(p < min(stale) for p in params) else "outer-stale"
+                break
+            shapes.add(shape)
+    if missing or "other" in shapes or "outer-stale" in shapes:
+        cls = "other"
+    else:
+        cls = "+".join(x for x in (["respecialised"] if resp else []) + (["inner-stale"] if shapes else [])) or "none"
+    return resp, orphan, missing, cls
+
+
 def witness_of(rej, fam_meta):
     run = rej["run"]
     e = run[rej["at"]]
+    resp, orphan, missing, cls = tree_facts(run, rej["at"])
+    fam = "attribution" if rej["law"].replace("Consumer-", "") in ("Conserve", "BatchIndep", "BatchIndep-Keys") else "values"
     return {"class": "law-" + rej["law"], "law": rej["law"], "event": e["ev"], "batches": [x["n"] for x in run if x["ev"] == "batch"],
             "restarted_before": any(x["ev"] == "restart" for x in run[: rej["at"]]), "records": len(rej["stream"]["recs"]),
-            "threshold": fam_meta["threshold"], "kind": fam_meta.get("kind", ""), "error": e.get("err", "")[:200]}
+            "threshold": fam_meta["threshold"], "kind": fam_meta.get("kind", ""), "error": e.get("err", "")[:200],
+            "respecialised_after_merge": resp, "orphan_keys": orphan, "missing_keys": missing, "tree_class": cls, "law_family": fam}
 
 
 def judge(ctx, binary, fams, tag, chunks, model_chunks=0):
@@ -236,10 +377,17 @@ def judge(ctx, binary, fams, tag, chunks, model_chunks=0):
             w = witness_of(rej, fm)
             sc = script_of(fm, rej["stream"], rej["run"])
             # reproduce: the reference run + this run again on the real code, judged again by the specification
-            p2 = execute(ctx, binary, [dict(sc)], tag + "-repro", 1)
-            _, rej2 = validate(ctx, read_ndjson(p2[0]), tag + "-repro", max_rounds=1)
+            # (the order in which the code merges entries follows Go's randomised map iteration, so a behaviour that depends on
+            # the merge order need not recur on the first re-execution: up to 20 attempts, as for concurrent recordings)
+            rej2 = None
+            for attempt in range(20):
+                p2 = execute(ctx, binary, [dict(sc)], tag + "-repro", 1)
+                _, rej2 = validate(ctx, read_ndjson(p2[0]), tag + "-repro", max_rounds=1)
+                if rej2:
+                    break
             if not rej2:
-                raise Broken("rejection not reproduced (%s): %s" % (tag, json.dumps(w)))
+                raise Broken("rejection not reproduced in 20 attempts (%s): %s" % (tag, json.dumps(w)))
+            w["reproduced_at_attempt"] = attempt + 1
             viol.append((w, {"script": sc, "recorded_run": rej["run"], "rejected_at": rej["at"], "law": rej["law"]}))
     return {"runs": nruns, "batches": nbatches, "nontrivial": nontrivial, "accepted": accepted, "viol": viol, "traces": traces, "fams": len(fams),
             "drifts": drifts, "model_chunks": model_chunks}
@@ -288,6 +436,8 @@ def run(ctx):
     fams = enumerated_families(ctx, space, 2)
     pf = production_families(ctx, space, thr)
     rf = random_families(ctx, thr)
+    mf = means_families(ctx, thr)
+    nf = nested_families(ctx)
 
     # (1) exhaustive: every reachable state of the implementation-shaped model satisfies the laws; broken variants are refuted
     def mc(job):
@@ -308,6 +458,10 @@ def run(ctx):
             return judge(ctx, binary, fams, "enum", 6 if not T else 10, model_chunks=3 if not T else 10)
         if name == "prod":      # (3) production threshold behind a prelude
             return judge(ctx, binary, pf, "prod", 2 if not T else 4)
+        if name == "means":     # (5) one endpoint, inexact float32 averages, many merges
+            return judge(ctx, binary, mf, "means", 2 if not T else 4)
+        if name == "nested":    # (6) multi-level convergence
+            return judge(ctx, binary, nf, "nested", 2 if not T else 4)
         return judge(ctx, binary, rf, "rand", 3 if not T else 4)      # (4) seeded random long streams (code -> spec)
     def timed(name):
         import time
@@ -316,10 +470,10 @@ def run(ctx):
         ctx.log("part %s took %.0fs" % (name, time.time() - t))
         return r
     if T:
-        out = [timed("mc")] + parallel(timed, ["enum", "prod", "rand"], n=3)
+        out = [timed("mc")] + parallel(timed, ["enum", "prod", "rand", "means", "nested"], n=3)
     else:
-        out = parallel(timed, ["mc", "enum", "prod", "rand"], n=4)
-    res, r_enum, r_prod, r_rand = out
+        out = parallel(timed, ["mc", "enum", "prod", "rand", "means", "nested"], n=4)
+    res, r_enum, r_prod, r_rand, r_means, r_nested = out
     for (cfg, label, tag), r in zip(jobs, res):
         ctx.cov["tlc_runs"].append({"module": "MC_C15", "cfg": cfg, "generated": r.generated, "distinct": r.distinct,
                                     "depth": r.depth, "wall_s": round(r.wall, 1), "result": "ok" if r.ok else (r.violated or "error"), "label": label})
@@ -337,6 +491,8 @@ def run(ctx):
     apply(ctx, r_enum, "enumerated (threshold 2)")
     apply(ctx, r_prod, "production threshold %d behind a prelude" % thr)
     apply(ctx, r_rand, "random")
+    apply(ctx, r_means, "one endpoint, inexact averages, many merges")
+    apply(ctx, r_nested, "multi-level convergence")
     ctx.sample({"kind": "enumerated-run", "stream": [(r["m"], r["u"], r["s"], r["d"]) for r in fams[-1]["recs"]], "run": fams[-1]["runs"][-1]})
     ev = r_rand["traces"][0]
     bi = next(i for i, e in enumerate(ev) if e["ev"] == "batch")
